@@ -195,7 +195,7 @@ func TestC09(t *testing.T) {
 
 var c09FilePrograms = append(append([]string{}, c07Programs...),
 	"find all 'need' between 2100 and 2200 any 'QQ'",
-	"find all 'n' at least 2300 any fewest 'QQ'",
+	"find all 'n' between 2300 and 2400 any fewest 'QQ'",
 	"replace all 'needle' with ''",
 	"replace all 'eed' with value value",
 	"find all (between 1 and 3 any) = x 'needle' x",
@@ -209,7 +209,7 @@ func TestC09Files(t *testing.T) {
 	rapid.Check(t, func(t *rapid.T) {
 		content, _ := genPlantedContent(t)
 		src := rapid.SampledFrom(c09FilePrograms).Draw(t, "prog")
-		if strings.Contains(src, "2100") || strings.Contains(src, "2300") {
+		if strings.Contains(src, "2100") || strings.Contains(src, "2300 and") {
 			// the long-attempt programs are expensive: keep one in four
 			if rapid.IntRange(0, 3).Draw(t, "heavy") != 0 {
 				src = rapid.SampledFrom(c07Programs).Draw(t, "lightprog")
